@@ -37,6 +37,10 @@ def run(ctx):
     r3_export_order(ctx, g, flows)
     r4_separators(ctx)
     check_nullish_tables(ctx, 'R5')
+    # the default export of one call cannot depend on an earlier call (options that stick, a selection that shrinks)
+    from . import shared
+    shared.effect_free(ctx, 'R7', [f'{N.PUBLIC}.dumps', f'{N.MAPPER}.valid'],
+                       'the default export must be the same text in every call: nothing an earlier export left behind may change it')
     if ctx.tier == 'thorough':
         from .. import regen
         regen.check(ctx, 'R6')
